@@ -82,7 +82,7 @@ func surm(rainfall, pet data.ND1Float64,
 		perviousQuickflow := infiltrationExcess + saturationExcess
 		quickflow += perviousQuickflow
 
-		et := math.Max(math.Min(10*soilMoistureStore/smax, petThisTS), 0.0) //* fperv
+		et := math.Max(math.Min(math.Min(10*soilMoistureStore/smax, petThisTS), soilMoistureStore), 0.0) //* fperv
 		soilMoistureStore -= et
 
 		recharge := rfac * math.Max(soilMoistureStore-fieldCapacity, 0.0) //* fperv
